@@ -73,10 +73,10 @@ JudgeInit == /\ rec_i \in 1..Len(Recs) /\ ph = "judge" /\ cur = <<>>
 JudgeNext == UNCHANGED vars
 
 \* ---- decoder tables and jump targets of real bytecode -------------------------------------------
-Tabs == JsonDeserialize(IOEnv.TABLES_FILE)   \* [exec: [w16, w8], cb: [w16, w8], emit: [w16]] as sequences of names
+Tabs == JsonDeserialize(IOEnv.TABLES_FILE)   \* [exec: [w16, w8], cbs: seq of [w16, w8] (every other decoder loop), emit: [w16]]
 SetOf(q) == {q[j] : j \in 1..Len(q)}
-TablesAgree == /\ SetOf(Tabs.exec.w16) = SetOf(Tabs.cb.w16)
-               /\ SetOf(Tabs.exec.w8) = SetOf(Tabs.cb.w8)
+TablesAgree == /\ Len(Tabs.cbs) >= 1
+               /\ \A c \in 1..Len(Tabs.cbs) : SetOf(Tabs.exec.w16) = SetOf(Tabs.cbs[c].w16) /\ SetOf(Tabs.exec.w8) = SetOf(Tabs.cbs[c].w8)
                /\ SetOf(Tabs.exec.w16) = SetOf(Tabs.emit.w16)
                /\ SetOf(Tabs.exec.w16) \cap SetOf(Tabs.exec.w8) = {}
 Funcs == ndJsonDeserialize(IOEnv.FUNCS_FILE)  \* [pid, fid, nbytes, starts: seq of offsets, jumps: seq of [at, arg]]
